@@ -14,38 +14,82 @@ let hh (b : byte list) : byte list =
   | Some v -> v
   | None -> let v = blake2b_256 b in Hashtbl.add memo k v; v
 
+let parse_dump (s : string) : (byte list * byte list) list =
+  if s = "." then [] else
+  List.map (fun kv -> match String.split_on_char '=' kv with
+    | [k; v] -> (bytes_of_hex k, bytes_of_hex v)
+    | _ -> fail "C06: bad dump entry %s" kv) (String.split_on_char ',' s)
+
+(* the checks against the database the engine wrote (token D):
+   - the canonical trie of the denoted map is well formed for the codec, its root hash (through
+     TrieCodec.encode) is the root the engine returned,
+   - every binding commit() must have written (Lookup.tneeds_root) is in the database,
+   - the model of TrieLookup (Lookup.tget, proved correct in LookupProofs.tget_correct) run on
+     that database returns what the reopened instance returned for every probed key,
+   - TrieCodec.Db.lookup on the canonical trie is the map's value. *)
+let db_checks ver m (last_root : string) (probes : (string * string) list) (dump : string) : string =
+  match committed ver m with
+  | None -> ""   (* empty trie: nothing committed *)
+  | Some n ->
+    let d = parse_dump dump in
+    if not (wf_node n) then "canonical trie not well formed for the codec"
+    else if hex_of_bytes (root_hash hh n) <> last_root then
+      Printf.sprintf "TrieCodec root %s <> engine root %s" (hex_of_bytes (root_hash hh n)) last_root
+    else if not (has_b d (tneeds_root hh n)) then "database lacks a binding that commit must write"
+    else begin
+      let bad = List.filter (fun (k, ob) ->
+        let kb = bytes_of_hex k in
+        let r = tget (true, true) d (root_hash hh n) kb in
+        let rs = (match r with Some v -> hex_of_bytes v | None -> "nil") in
+        let ls = (match lookup n (List.concat_map (fun b ->
+                       let x = int_of_byte b in [byte_of_int (x / 16); byte_of_int (x mod 16)]) kb) with
+                  | Some v -> hex_of_bytes v | None -> "nil") in
+        rs <> ob || ls <> ob) probes in
+      match bad with
+      | [] -> ""
+      | (k, ob) :: _ -> Printf.sprintf "lookup model over the engine's database differs at key %s (impl %s)" k ob
+    end
+
 let check inp obs =
   let toks = split_ws inp in
   let ver, toks = (match toks with "1" :: r -> (V1, r) | "0" :: r -> (V0, r) | _ -> fail "C06: bad version") in
+  let o = split_ws obs in
   let m = ref [] in
   let n_put = ref 0 and n_del = ref 0 and n_commit = ref 0 and n_get = ref 0 and n_hit = ref 0 in
   let boundary = ref false and hashed = ref false in
-  let model = List.map (fun tok ->
-    match String.split_on_char ':' tok with
-    | ["p"; k; v] ->
-      let vb = bytes_of_hex v in
-      incr n_put;
-      if List.length vb = 32 then boundary := true;
-      if value_hashed ver vb then hashed := true;
-      m := apply_op !m (OPut (bytes_of_hex k, vb)); "ok"
-    | ["d"; k] -> incr n_del; m := apply_op !m (ODel (bytes_of_hex k)); "ok"
-    | ["h"] | ["R"] -> incr n_commit; hex_of_bytes (spec_root_bytes hh ver !m)
-    | ["g"; k] ->
-      incr n_get;
-      (match bm_get !m (bytes_of_hex k) with
-       | Some v -> incr n_hit; hex_of_bytes v
-       | None -> "nil")
-    | ["D"] -> "D"
-    | _ -> fail "C06: bad token %s" tok) toks in
-  let o = split_ws obs in
   let why = ref "" in
-  (if List.length o <> List.length model then why := "shape"
+  let dbwhy = ref "" in
+  let dbchecked = ref false in
+  let last_root = ref "" in
+  let probes = ref [] in
+  (if List.length o <> List.length toks then why := "shape"
    else
-     List.iteri (fun i (tok, (mo, ob)) ->
-       if !why = "" && mo <> "D" && mo <> ob then
+     List.iteri (fun i (tok, ob) ->
+       let mo = (match String.split_on_char ':' tok with
+         | ["p"; k; v] ->
+           let vb = bytes_of_hex v in
+           incr n_put;
+           if List.length vb = 32 then boundary := true;
+           if value_hashed ver vb then hashed := true;
+           m := apply_op !m (OPut (bytes_of_hex k, vb)); probes := []; "ok"
+         | ["d"; k] -> incr n_del; m := apply_op !m (ODel (bytes_of_hex k)); probes := []; "ok"
+         | ["h"] | ["R"] ->
+           incr n_commit; probes := [];
+           let r = hex_of_bytes (spec_root_bytes hh ver !m) in last_root := ob; r
+         | ["g"; k] ->
+           incr n_get; probes := (k, ob) :: !probes;
+           (match bm_get !m (bytes_of_hex k) with
+            | Some v -> incr n_hit; hex_of_bytes v
+            | None -> "nil")
+         | ["D"] ->
+           dbchecked := true;
+           if !why = "" then dbwhy := db_checks ver !m !last_root (List.rev !probes) ob;
+           ob
+         | _ -> fail "C06: bad token %s" tok) in
+       if !why = "" && mo <> ob then
          why := Printf.sprintf "token %d (%s): spec=%s impl=%s" i
                   (if String.length tok > 40 then String.sub tok 0 40 ^ ".." else tok) mo ob)
-       (List.combine toks (List.combine model o)));
+       (List.combine toks o));
   let okk = (!why = "") in
   let tags = String.concat "," (
     [ (match ver with V0 -> "v0" | V1 -> "v1") ]
@@ -54,8 +98,9 @@ let check inp obs =
     @ (if !boundary then ["value-len-32"] else [])
     @ (if !hashed then ["hashed-value"] else [])
     @ (if !n_hit > 0 then ["reopen-hit"] else [])
-    @ (if !n_get > !n_hit then ["reopen-absent"] else [])) in
-  { prop_ok = okk; model_eq = okk; nontrivial = (!n_put > 0); finding = "-"; tags;
-    detail = (if okk then "" else !why) }
+    @ (if !n_get > !n_hit then ["reopen-absent"] else [])
+    @ (if !dbchecked then ["database-checked"] else [])) in
+  { prop_ok = okk; model_eq = okk && !dbwhy = ""; nontrivial = (!n_put > 0); finding = "-"; tags;
+    detail = (if not okk then !why else !dbwhy) }
 
 let () = run_driver check
